@@ -209,7 +209,7 @@ impl Chip127x {
                 self.raise(F_TX_DONE);
                 self.set_mode(1);
             }
-            (5 | 6, "done" | "crc-error") => {
+            (5 | 6, "done" | "crc-error" | "timeout+done") => {
                 let base = self.regs[0x0F];
                 for (i, b) in rx_payload.iter().enumerate() {
                     self.fifo[base.wrapping_add(i as u8) as usize] = *b;
@@ -222,6 +222,9 @@ impl Chip127x {
                 if ev == "crc-error" {
                     f |= F_CRC_ERR;
                 }
+                if ev == "timeout+done" && self.mode() == 6 {
+                    f |= F_RX_TIMEOUT;
+                }
                 self.raise(f);
                 if self.mode() == 6 {
                     self.set_mode(1);
@@ -231,7 +234,13 @@ impl Chip127x {
                 self.raise(F_RX_TIMEOUT);
                 self.set_mode(1);
             }
-            (5 | 6, "preamble") => self.raise(F_VALID_HEADER),
+            // the SX127x has no preamble-detected interrupt in LoRa mode: ValidHeader is its only
+            // informational flag
+            (5 | 6, "preamble" | "header-valid") => self.raise(F_VALID_HEADER),
+            (6, "preamble+timeout" | "header-valid+timeout") => {
+                self.raise(F_VALID_HEADER | F_RX_TIMEOUT);
+                self.set_mode(1);
+            }
             (7, "done") => {
                 self.raise(F_CAD_DONE);
                 self.set_mode(1);
